@@ -28,8 +28,8 @@ ASSUMPTIONS = [
     'radius below half the smallest perpendicular width of the cell; positions within 1e-7 A of the radius are tolerated either way',
 ]
 QUICK_GROUPS = [1, 2, 3, 5, 9, 12, 14, 15, 19, 33, 36, 43, 47, 62, 63, 64, 70, 74, 75, 80, 88, 92, 99, 109, 122, 123, 136, 139, 141, 142, 143, 146, 148, 150, 161, 166, 167, 168, 173, 176, 186, 191, 194, 198, 205, 216, 221, 225, 227, 229, 230]
-BUDGET_S = {'quick': 230, 'thorough': 2700}
-REPS = {'quick': 2, 'thorough': 6}
+BUDGET_S = {'quick': 230, 'thorough': 3600}
+REPS = {'quick': 2, 'thorough': 20}
 
 _mon = Monitor()
 
@@ -168,6 +168,17 @@ def run_unit(unit, rng, ctx):
             analyzer = ShapeAnalyzer(sites=psites, lattice=lat, spacegroup=sg)
         ops = list(analyzer.spacegroup)
         an_sites = list(analyzer.sites)
+        mm_ = np.asarray(analyzer.lattice.matrix)
+        isometric = all(np.allclose((mm_.T @ np.asarray(op.rotation_matrix) @ np.linalg.inv(mm_.T)) @ (mm_.T @ np.asarray(op.rotation_matrix) @ np.linalg.inv(mm_.T)).T, np.eye(3), atol=1e-8) for op in ops)
+        if not isometric:
+            # spglib matched a pseudo-symmetry within its tolerance: the operations are not isometries of
+            # this lattice, which is outside the statement ("compatible lattices"); fall back to the group itself
+            ctx.count('spglib_pseudo_symmetry_rejected')
+            use_spglib = False
+            psites = [PeriodicSite('Li', fc, lat, label=f'Li{i}') for i, fc in enumerate(sites_frac)]
+            analyzer = ShapeAnalyzer(sites=psites, lattice=lat, spacegroup=sg)
+            ops = list(analyzer.spacegroup)
+            an_sites = list(analyzer.sites)
         if len(ops) * len(an_sites) > 400:
             an_sites = an_sites[:1]
             analyzer = ShapeAnalyzer(sites=an_sites, lattice=analyzer.lattice, spacegroup=analyzer.spacegroup)
